@@ -87,7 +87,7 @@ pub fn gen_s1(focus: &str, seed: u64) -> S1Scenario {
         "C02" => *rng.pick(&["exhaustive", "exhaustive", "exhaustive", "mixed"]),
         "C03" => *rng.pick(&["mixed", "mixed", "exhaustive", "timeout"]),
         "C05" => *rng.pick(&["exhaustive", "exhaustive", "mixed", "panic", "timeout"]),
-        "C11" => *rng.pick(&["exhaustive", "exhaustive", "mixed"]),
+        "C11" => *rng.pick(&["exhaustive", "exhaustive", "mixed", "timeout"]),
         "C12" => *rng.pick(&["mixed", "mixed", "timeout", "timeout", "tail-timeout", "depth"]),
         "C13" => *rng.pick(&["bfs1", "bfs1", "bfs1-mixed"]),
         _ => "mixed",
